@@ -92,4 +92,26 @@ Decode(b) ==
 NArgs(args) == Cardinality({i \in 1..Len(args) : args[i].t \notin {"[","]"}})
 WellFormed(b) == Decode(b).ok /\ Decode(b).len = Len(b)
 IsBundle(b) == Len(b) >= 8 /\ SubSeq(b, 1, 8) = <<35, 98, 117, 110, 100, 108, 101, 0>>
+
+\* ------------------------------------------------------------------ bundles (C08)
+\* an element is [k |-> "m", addr, args] or [k |-> "b", tt (4 limbs), elems]
+BundleHead == <<35, 98, 117, 110, 100, 108, 101, 0>>            \* "#bundle\0"
+RECURSIVE EncElem(_)
+EncElem(e) == IF e.k = "m" THEN Encode(e.addr, e.args)
+              ELSE BundleHead \o LimbsBE(e.tt)
+                   \o Concat([i \in 1..Len(e.elems) |-> LET x == EncElem(e.elems[i]) IN BE32Nat(Len(x)) \o x])
+EncBundle(tt, elems) == EncElem([k |-> "b", tt |-> tt, elems |-> elems])
+RECURSIVE SizeElem(_)
+SizeElem(e) == IF e.k = "m" THEN Size(e.addr, e.args)
+               ELSE 16 + Sum([i \in 1..Len(e.elems) |-> 4 + SizeElem(e.elems[i])])
+\* decomposition, written from the bundle layout only: offsets (0-based) and sizes of
+\* the elements found by walking the size fields from byte 16 up to the end of b
+RECURSIVE WalkElems(_, _)
+WalkElems(b, p) == IF p + 4 > Len(b) \/ b[p + 1] >= 128 THEN <<>>
+                   ELSE LET n == Nat32(b, p + 1) IN
+                        IF n = 0 \/ p + 4 + n > Len(b) THEN <<>>
+                        ELSE <<[off |-> p + 4, size |-> n]>> \o WalkElems(b, p + 4 + n)
+BundleElems(b) == WalkElems(b, 16)
+BundleTime(b) == Limbs(b, 9, 4)
+BundleLen(b) == LET es == BundleElems(b) IN IF es = <<>> THEN 16 ELSE es[Len(es)].off + es[Len(es)].size
 =============================================================================
